@@ -16,7 +16,7 @@
 EXTENDS Mempool, Json
 
 Trace == ndJsonDeserialize("trace.ndjson")
-Scen == JsonDeserialize("scenario.json")        \* [baseh, ids : Seq(id), tx : [id as string -> [ins, outs, vsize]]] written by the driver
+Scen == JsonDeserialize("scenario.json")        \* [baseh, ids : Seq(id), tx : [id as string -> [ins, outs, vsize, sops]]] written by the driver
 
 \* (TLC re-evaluates a definition that is substituted for a constant at every use: the table must be cheap to
 \* build - a lookup by key, not a search - or validation time grows with the square of the universe)
@@ -34,7 +34,7 @@ E == Trace[l]
 
 ObsPool(o) == [t \in {o.pool[i].t : i \in 1..Len(o.pool)} |->
                  LET r == o.pool[CHOOSE i \in 1..Len(o.pool) : o.pool[i].t = t]
-                 IN [fee |-> r.fee, vsize |-> r.vsize, mem |-> r.mem, mic |-> r.mic]]
+                 IN [fee |-> r.fee, vsize |-> r.vsize, sops |-> r.sops, vol |-> r.vol, mem |-> r.mem, mic |-> r.mic]]
 ObsSpent(o) == {[tx |-> o.spent[i].tx, vout |-> o.spent[i].vout, by |-> o.spent[i].by] : i \in 1..Len(o.spent)}
 ObsOrph(o) == LET idx == {i \in 1..Len(o.rej) : o.rej[i].kind = "orphan"}
               IN [t \in {o.rej[i].t : i \in idx} |-> o.rej[CHOOSE i \in idx : o.rej[i].t = t].w4]
@@ -70,7 +70,7 @@ TSubmit ==
 \* the chain connected a block (the driver logs from inside the BlockMinedCB callback)
 TMined ==
     /\ Ev("Mined")
-    /\ SeqValid(utxo, E.txs, Height + 1)                  \* else the chain accepted what the model's rules refuse: not C12's business, rejected
+    /\ BlockValid(utxo, E.txs, Height + 1)                \* else the chain accepted what the model's rules refuse: not C12's business, rejected
     /\ LET u1 == ApplySeq(utxo, E.txs, Height + 1) IN
        /\ utxo' = u1
        /\ chain' = Append(chain, [txs |-> E.txs, spent |-> utxo \ u1])
